@@ -9,7 +9,7 @@ import re
 
 from .. import abstraction as ab
 from .. import universe as U
-from . import gen, cfgsrc
+from . import gen, cfgsrc, pdasrc, tmsrc
 from ..worker import guarded
 
 TMP = None
@@ -278,6 +278,37 @@ def inst_lang_words(rng, kind):
         X = U.random_regexp(rng, rng.randint(0, 4), ["a", "b"])
         pr, chk, absfn = print_regexp_simple, nb.check_regexp_language_from_words, ab.regexp
         muts = [("random", U.random_regexp(rng, rng.randint(0, 4), ["a", "b"])) for _ in range(3)]
+    elif kind == "pda":
+        import gambatools.pda_algorithms as pa
+        from gambatools.pda import PDA
+        # no epsilon moves that push: every closure is finite and far below the iteration limit
+        X = pdasrc.build({"kind": "pda_nfa_like", "seed": rng.randrange(10 ** 9), "eps": "ε"})
+        pr, chk, absfn = pa.print_pda, nb.check_pda_language_from_words, ab.pda
+        muts = []
+        for _ in range(3):
+            d = {k: set(v) for k, v in X.delta.items() if v}
+            F = set(X.F)
+            if d and rng.random() < 0.6:
+                k = rng.choice(sorted(d))
+                d[k].discard(rng.choice(sorted(d[k])))
+            else:
+                F ^= {rng.choice(sorted(X.Q))}
+            muts.append(("pda", PDA(set(X.Q), set(X.Sigma), set(X.Gamma), {k: v for k, v in d.items() if v}, X.q0, F, X.epsilon)))
+    elif kind == "tm":
+        import gambatools.tm_algorithms as ta
+        from gambatools.tm import TM
+        X = tmsrc.build({"kind": "tm_rnd", "seed": rng.randrange(10 ** 9)})
+        pr, chk, absfn = ta.print_tm, nb.check_tm_language_from_words, ab.tm
+        muts = []
+        for _ in range(3):
+            d = dict(X.delta)
+            if d and rng.random() < 0.7:
+                k = rng.choice(sorted(d))
+                q, b, mv = d[k]
+                d[k] = (rng.choice(sorted(X.Q)), b, mv) if rng.random() < 0.5 else (q, rng.choice(sorted(X.Gamma)), "L" if mv == "R" else "R")
+            elif d:
+                del d[rng.choice(sorted(d))]
+            muts.append(("tm", TM(set(X.Q), set(X.Sigma), set(X.Gamma), d, X.q0, X.q_accept, X.q_reject, X.blank)))
     else:
         while True:
             G = cfgsrc.build(cfgsrc.random_src(rng))
@@ -301,11 +332,11 @@ def inst_lang_words(rng, kind):
                     continue
             muts.append(("rules", H))
     ws = generate_language(X, length)
-    max_states = rng.choice([0, 0, 1, 2, 5]) if kind in ("dfa", "nfa") else 0
+    max_states = rng.choice([0, 0, 1, 2, 5]) if kind in ("dfa", "nfa", "pda", "tm") else 0
     wl = words_str(ws)
 
     def submit(A):
-        args = (pr(A), wl, length, max_states) if kind in ("dfa", "nfa") else (pr(A), wl, length)
+        args = (pr(A), wl, length, max_states) if kind in ("dfa", "nfa", "pda", "tm") else (pr(A), wl, length)
         v, cex, exc, out = run_checker(chk, *args)
         return {"family": "lang_words", "kind": kind, "ans": absfn(A), "words": ab.words(ws), "length": length,
                 "max_states": max_states, "verdict": v, "cex": cex, "exc": exc, "out": ab.enc(out), "illformed": False}
@@ -534,7 +565,8 @@ def inst_exhaustive(rng, fam, seed):
 
 
 FAMILIES = ["union", "intersection", "symmetric_difference", "complement", "reverse", "minimal", "hopcroft", "nfa2dfa",
-            "dfa2regexp", "lang_words/dfa", "lang_words/nfa", "lang_words/re", "lang_words/cfg", "lang_file",
+            "dfa2regexp", "lang_words/dfa", "lang_words/nfa", "lang_words/re", "lang_words/cfg", "lang_words/pda",
+            "lang_words/tm", "lang_file",
             "accepts_rejects", "chomsky/1", "chomsky/2", "chomsky/3", "chomsky/4", "chomsky/5", "cyk",
             "derivation/leftmost", "derivation/rightmost", "complement/exh", "minimal/exh"]
 
